@@ -467,7 +467,17 @@ func setImports(gocmd, dir string, pi *PkgInfo) error {
 					importNames[namedImport{name, alias}] = true
 				} else {
 					debug.Printf("found %s: %s", importTag, name)
-					rootImports = append(rootImports, name)
+					// the same package imported bare by several specs is one import
+					dup := false
+					for _, r := range rootImports {
+						if r == name {
+							dup = true
+							break
+						}
+					}
+					if !dup {
+						rootImports = append(rootImports, name)
+					}
 				}
 			}
 		}
